@@ -131,9 +131,19 @@ def named_array(ex, st, seq: VSeq):
     a = seq.comps[0]
     if z3.is_const(a) and a.decl().kind() == z3.Z3_OP_UNINTERPRETED:
         return seq
+    # the same (simplified) array expression gets the same name: two mins over it are the same term
+    cache = ex.__dict__.setdefault("_named_arrays", {})
+    key = (z3.simplify(a).sexpr(), z3.simplify(seq.ln).sexpr())
+    if key in cache:
+        nm, fact = cache[key]
+        if not any(z3.eq(fact, p) for p in st.pc):
+            st.pc.append(fact)
+        return VSeq([nm], seq.ln, seq.et, seq.kind)
     nm = z3.Const(fresh_name("arr"), A)
     j = z3.Int(fresh_name("nj"))
-    st.pc.append(z3.ForAll([j], z3.Implies(z3.And(0 <= j, j < seq.ln), nm[j] == a[j]), patterns=[nm[j]]))
+    fact = z3.ForAll([j], z3.Implies(z3.And(0 <= j, j < seq.ln), nm[j] == a[j]), patterns=[nm[j]])
+    st.pc.append(fact)
+    cache[key] = (nm, fact)
     return VSeq([nm], seq.ln, seq.et, seq.kind)
 
 
@@ -143,13 +153,22 @@ def seq_min(ex, st, seq: VSeq, line, what="min"):
     seq = named_array(ex, st, seq)
     ex.lib_used.add("min()/max()/sorted() of a list: result is an element, bounds all elements")
     ex.oblige(st, f"L{line}.{what}_of_nonempty", seq.ln > 0)
-    r = z3.Int(fresh_name(what))
-    w = z3.Int(fresh_name(what + "_at"))
-    i = z3.Int(fresh_name("i"))
     a = seq.comps[0]
-    cmp = (r <= a[i]) if what == "min" else (r >= a[i])
-    st.pc.append(z3.And(0 <= w, w < seq.ln, a[w] == r))
-    st.pc.append(z3.ForAll([i], z3.Implies(z3.And(0 <= i, i < seq.ln), cmp), patterns=[a[i]]))
+    mcache = ex.__dict__.setdefault("_minmax", {})
+    mkey = (what, a.sexpr(), z3.simplify(seq.ln).sexpr())
+    if mkey in mcache:
+        r, facts = mcache[mkey]
+    else:
+        r = z3.Int(fresh_name(what))
+        w = z3.Int(fresh_name(what + "_at"))
+        i = z3.Int(fresh_name("i"))
+        cmp = (r <= a[i]) if what == "min" else (r >= a[i])
+        facts = [z3.And(0 <= w, w < seq.ln, a[w] == r),
+                 z3.ForAll([i], z3.Implies(z3.And(0 <= i, i < seq.ln), cmp), patterns=[a[i]])]
+        mcache[mkey] = (r, facts)
+    for f in facts:
+        if not any(z3.eq(f, p) for p in st.pc):
+            st.pc.append(f)
     return VInt(r)
 
 
@@ -168,9 +187,17 @@ def rsum_axioms():
     return [
         z3.ForAll([a, lo], rsum(a, lo, lo) == 0, patterns=[rsum(a, lo, lo)]),
         # unfold one step at the top
-        # (the trigger hi+1 only matches successor-shaped upper bounds, so the axiom cannot feed itself)
-        z3.ForAll([a, lo, hi], z3.Implies(lo <= hi, rsum(a, lo, hi + 1) == rsum(a, lo, hi) + a[hi]),
-                  patterns=[rsum(a, lo, hi + 1)]),
+        # unfolding, stated over PAIRS of existing sum terms (no arithmetic inside triggers - E-matching is
+        # syntactic - and no new sum terms are created, so the axioms cannot feed themselves)
+        z3.ForAll([a, lo, hi, k], z3.Implies(z3.And(k == hi + 1, lo <= hi), rsum(a, lo, k) == rsum(a, lo, hi) + a[hi]),
+                  patterns=[z3.MultiPattern(rsum(a, lo, k), rsum(a, lo, hi))]),
+        z3.ForAll([a, lo, hi, k], z3.Implies(z3.And(k == lo + 1, lo < hi), rsum(a, lo, hi) == a[lo] + rsum(a, k, hi)),
+                  patterns=[z3.MultiPattern(rsum(a, lo, hi), rsum(a, k, hi))]),
+        # a sum of non-negative terms is non-negative
+        z3.ForAll([a, lo, hi],
+                  z3.Or(rsum(a, lo, hi) >= 0, z3.Exists([i], z3.And(lo <= i, i < hi, a[i] < 0))),
+                  patterns=[rsum(a, lo, hi)]),
+        z3.ForAll([a, lo, hi], z3.Implies(hi <= lo, rsum(a, lo, hi) == 0), patterns=[rsum(a, lo, hi)]),
         # extensionality on the summed range
         z3.ForAll([a, b, lo, hi],
                   z3.Or(rsum(a, lo, hi) == rsum(b, lo, hi),
